@@ -228,6 +228,12 @@ def run(tier):
     log("judged %d expressions in %.0fs" % (len(verdicts), time.time() - t0))
     status_by = {s["id"]: s for s in status}
     bad = [s for s in status if s["status"] != "ok"]
+    # darklua read a string literal as OTHER BYTES than the independent Lua lexer: the evaluator hands out the literal's value
+    # as it was read, so the definite value it assigns is not the value execution builds (a verdict, not a tool problem)
+    misread = [s for s in bad if s["status"].startswith("parsers-disagree") and ": str.s " in s["status"]]
+    for s in misread:
+        rep.violation({"kind": "literal-misread", "expr": s["expr"], "detail": s["status"][:200]}, {"id": s["id"], "expr": s["expr"], "status": s["status"]})
+    bad = [s for s in bad if s not in misread]
     badkinds = {}
     for s in bad:
         kk = s["status"].split(":")[0]
@@ -295,8 +301,13 @@ def replay(path, tier):
     override = {"replay": {k: c["ans"][k] for k in ("vt", "hi", "lo", "s", "se", "multi", "pse") if k in c["ans"]}} if c.get("use_recorded") else None
     verdicts, recs, status, states, gen = observe_and_judge(rep.wd, "replay", [case], uni, 600, override=override)
     status_by = {s["id"]: s for s in status}
-    if status_by["replay"]["status"] != "ok":
-        raise vlib.ToolError("replay expression could not be observed: %s" % status_by["replay"]["status"])
+    rst = status_by["replay"]["status"]
+    if rst.startswith("parsers-disagree") and ": str.s " in rst:
+        rep.violation({"kind": "literal-misread", "expr": c["expr"], "detail": rst[:200]}, {"id": "replay", "expr": c["expr"], "status": rst})
+        rep.coverage.update({"expressions": 1, "traces_validated_against_impl": 0, "states": states, "transitions": gen})
+        return rep.finish()
+    if rst != "ok":
+        raise vlib.ToolError("replay expression could not be observed: %s" % rst)
     counters = {k: {} for k in CLAUSES.values()}
     classify(rep, uni, recs, status_by, verdicts, counters)
     v = verdicts["replay"]
